@@ -8,6 +8,15 @@ VERIF = os.path.dirname(os.path.dirname(os.path.abspath(__file__)))
 
 # property -> (category, technique, text, note, design_ref)
 CHECKS = {
+    'C12': ('exploration', 'dense operator identities evaluated on every configuration of the (finite, exhaustively enumerated) '
+            'site-option grid; kron/JW reference for grouped sites; explicit Jordan-Wigner matrices for many-body CAR',
+            'Every site class x parameters x conserve option x sort_charge: operators mapped through perm equal the textbook '
+            'matrices and the conserve=None instance, satisfy their algebra, declared hc pairs are adjoints, qtotal equals the '
+            'charge difference of every matrix element, need_JW <=> anticommutes with JW, op-name products, state labels, and '
+            'rename/remove/add/sort_charge histories; GroupedSite for heterogeneous sites and every charge policy equals kron with '
+            'JW of the left sites (basis identified through state labels); fermionic bilinears and quartics in every order built via '
+            'TermList->MPOGraph->MPO and CouplingModel.add_(multi_)coupling equal explicit JW matrices and satisfy the CAR.',
+            'textbook matrices in the documented state order', 'DESIGN.md §C12'),
     'C09': ('exploration', 'dense shadow state (norm included) updated by the harness after every MPS transformation and compared '
             'with the harness contraction of the MPS; window density matrices for infinite MPS',
             'Random histories of apply_local_op / apply_product_op / apply_local_term, swap_sites / permute_sites (fermionic '
